@@ -151,6 +151,11 @@ class SemantivaOrchestrator(ABC):
             node_uuids = [n["node_uuid"] for n in canonical.get("nodes", [])]
             upstream_map = compute_upstream_map(canonical)
             run_id = f"run-{uuid.uuid4().hex}"
+            # Enrich a copy: the caller's canonical spec is shared by every run
+            # of a Pipeline and must keep hashing to the same pipeline_id
+            canonical = dict(
+                canonical, nodes=[dict(n) for n in canonical.get("nodes", [])]
+            )
 
             # Resolve processor classes without instantiating nodes
             proc_classes = self._resolve_processor_classes(canonical, resolved_spec)
